@@ -32,7 +32,7 @@ NAME_CLASSES = {
     'rare': ('100%', 'e\u0301', 'a\u200bb', '\U0001f642x', 'n' * 120, 'a\\', '%d{0}', 'A', 'x_1_'),
 }
 
-ATTR_VALUES = (None, True, False, 0, 7, -3, 2.5, -0.25, 100.0, 'x', 'hello world', 'ünï', [], [1, 'a'], [True, [2, 3]],
+ATTR_VALUES = (None, True, False, 0, 1, 1.0, 0.0, 7, -3, 2.5, -0.25, 100.0, 'x', 'hello world', 'ünï', [], [1, 'a'], [True, [2, 3]],
                {'k': 1}, {'k': {'j': 'q'}}, '', 'it\'s', 'a.b', 1e-07, 12345678901234567890, [None], {'a b': 2.5},
                {'k': [1, {'z': True}]}, [[1, 2], [3, 4]], 0.30000000000000004, -12345, 'say "hi"', 'a, b} c [d', ' lead',
                {'m': {'n': {'o': -1.5}}}, [False, 'x', 2.25], 2 ** 31, 2 ** 63 + 1, -2 ** 40, 9007199254740993, 123456.789,
@@ -328,9 +328,10 @@ def collision_models():
     composition, surrounding blanks, quotes): every pair must stay two features."""
     F, R, M = sh.F, sh.R, sh.M
     pairs = [('Caf\u00e9', 'Cafe\u0301'), ('Wifi', 'WIFI'), ('ab', ' ab'), ('ab', 'ab '), ('a b', 'a  b'), ('\u212b', '\u00c5'),
-             ('x1', 'x\u0661'), ('ab', '"ab"'), ('a_b', 'a-b')]
+             ('x1', 'x\u0661'), ('ab', '"ab"'), ('a_b', 'a-b'), ('Data Base', 'DataBase'), ('GPS', 'gps')]
     out = []
     for a, b in pairs:
         out.append(M(F('Fa', [R(1, 1, [F(a, [R(1, 1, [F('Bb')])])]), R(0, 1, [F(b, [R(0, 1, [F('Dc')])])])]),
-                     [('c1', ('REQUIRES', a, b)), ('c2', ('EXCLUDES', b, 'Dc'))]))
+                     [('c1', ('REQUIRES', a, b)), ('c2', ('EXCLUDES', b, 'Dc')), ('c3', ('IMPLIES', a, 'Bb')), ('c4', ('IMPLIES', b, 'Bb')),
+                      ('c5', ('IMPLIES', a, 'Bb'))]))
     return out
